@@ -3,6 +3,8 @@ package clisim
 import (
 	"encoding/json"
 	"fmt"
+	"os"
+	"path/filepath"
 	"strings"
 
 	"verif/sim/observe"
@@ -39,6 +41,7 @@ type c10 struct {
 	mode       string
 	allowedDup map[string]int // per statement: at how many crashes it was the one in flight
 	squashed   []*MFile       // files older than the checkpoint the directory starts from: never run
+	outOfOrder bool           // one file arrives after its successors were applied (--exec-order non-linear)
 }
 
 const propC10 = "C10"
@@ -100,7 +103,7 @@ func (c *c10) check(d *observe.Dump, when string, target []*MFile, afterCrash bo
 			r.Fail(propC10, "never-ahead", sig("total-mismatch"), "%s: revision %s total=%d, file has %d statements", when, f.Version, rev.Total, len(f.Stmts))
 			return
 		}
-		if (lead > 0 || hasRev) && i > 0 && !c.complete(d, c.files[i-1]) {
+		if (lead > 0 || hasRev) && i > 0 && !c.complete(d, c.files[i-1]) && !c.outOfOrder {
 			r.Fail(propC10, "order", sig("file-before-predecessor"), "%s: %s has effects/revision but its predecessor is not complete: effects %s revisions [%s]", when, f.Name, EffectVector(d, c.files), d.RevDigest())
 			return
 		}
@@ -331,10 +334,33 @@ func C10(r *simkit.Run) {
 			args = append(args, fmt.Sprint(n))
 		}
 		args = append(args, "--dir", w.DirURL(), "--url", w.URL(), "--tx-mode", mode)
+		if c.outOfOrder {
+			args = append(args, "--exec-order", "non-linear")
+		}
 		return w.Atlas(env, args...)
 	}
+	// Sometimes one file arrives late: the others were applied by an earlier clean run, then a file
+	// with an older version is added (a merged branch) and applied with --exec-order non-linear;
+	// the crashes then fall into a file that is not the newest one of the history.
+	if len(files) > 2 && len(squashed) == 0 && t.Chance("late-out-of-order-file", 1, 6) {
+		j := 1 + t.Draw("late-file", len(files)-2)
+		late := files[j]
+		os.Remove(filepath.Join(w.Mig, late.Name))
+		w.Seal()
+		res := apply(nil, 0)
+		if res.Exit != 0 {
+			r.Fail(propC10, "liveness", "clean-apply-failed/"+mode, "clean `migrate apply` of the directory without the late file failed: %s", res.ErrLine())
+			return
+		}
+		w.WriteFile(late.Name, late.Body())
+		w.Seal()
+		c.outOfOrder = true
+		r.Probe("crash-inside-an-out-of-order-file")
+		r.Sample("%s arrives after its successors were applied; --exec-order non-linear", late.Name)
+		r.Logf("late file %s", late.Name)
+	}
 	// Optionally some files were applied by an earlier, clean invocation.
-	if len(files) > 1 && t.Chance("earlier-apply", 1, 3) {
+	if len(files) > 1 && !c.outOfOrder && t.Chance("earlier-apply", 1, 3) {
 		n := t.Range("earlier-n", 1, len(files)-1)
 		res := apply(nil, n)
 		d := w.Observe()
